@@ -303,13 +303,20 @@ func (ex *Exec) applyContract(fr *Frame, c *Contract, names []string, args []Val
 		rvars["result"] = results[0]
 	}
 	if c.Throws {
-		// the callee may leave by an error-valued panic instead of returning
+		// the callee may leave by an error-valued panic instead of returning; the state at that exit has
+		// undergone the same effects (st is already havocked per the assigns clause) and satisfies the exsures clauses
 		threw := ex.vc.fresh("threw", SBool)
 		ev := ex.vc.fresh("thrown", SIface)
 		ex.noteIface(errorType)
 		ex.noteIface(ex.runtimeErrorType())
 		ex.vc.assume(And(Neq(IfDyn(ev), IntLit(0)), Neq(IfVal(ev), IntLit(0)), ex.implementsTerm(IfDyn(ev), errorType), Not(ex.implementsTerm(IfDyn(ev), ex.runtimeErrorType()))))
-		fr.panics = append(fr.panics, panicExit{And(reach, threw), Scalar{ev, errorType}, pre.clone(), ex.where(pos), "error thrown by " + short})
+		thrownSt := st.clone()
+		pcond := ex.vc.define("threwhere", And(reach, threw))
+		envEx := &SpecEnv{vars: vars, st: thrownSt, lst: thrownSt, pkg: tpkg, old: envPre, topOld: topPre, recovered: ex.recoveredArg}
+		for _, e := range c.Exsures {
+			ex.vc.assume(Implies(pcond, ex.evalBool(e.E, envEx)))
+		}
+		fr.panics = append(fr.panics, panicExit{pcond, Scalar{ev, errorType}, thrownSt, ex.where(pos), "error thrown by " + short})
 		nr := And(reach, Not(threw))
 		fr.newReach = &nr
 		reach = ex.vc.define("returned", nr)
@@ -408,6 +415,17 @@ func (ex *Exec) evalDesignator(text string, env *SpecEnv) []designator {
 	e, err := ParseExpr(text)
 	if err != nil {
 		ex.specFail("assigns %s: %v", text, err)
+	}
+	if ce, isCall := e.(ECall); isCall {
+		if id, ok := ce.Fun.(EIdent); ok {
+			if gf, ok := ex.prog.Contracts.Ghosts[id.Name]; ok && len(ce.Args) == 1 {
+				a := ex.scalar(ex.evalSpec(ce.Args[0], env))
+				if a.Sort == SIface {
+					a = IfVal(a)
+				}
+				return []designator{{heap: "G|" + gf.Name, root: a}}
+			}
+		}
 	}
 	fe, ok := e.(EField)
 	if !ok {
